@@ -27,6 +27,7 @@ T32_GROUPS = [
     ('t32_dual_exclusive', 'thumb_load_store_dual_load_store_exclusive_table_branch', 'dec_thumb_load_store_dual_load_store_exclusive_table_branch', 't32_dual_table', 'no_env'),
     ('t32_store_single', 'thumb_store_single_data_item', 'dec_thumb_store_single_data_item', 't32_sts_table', 'no_env'),
     ('t32_load_word', 'thumb_load_word', 'dec_thumb_load_word', 't32_ldw_table', 'no_env'),
+    ('t32_load_byte', 'thumb_load_byte_memory_hints', 'dec_thumb_load_byte_memory_hints', 't32_ldb_table', 'res'),
     ('t32_load_halfword', 'thumb_load_halfword_memory_hints', 'dec_thumb_load_halfword_memory_hints', 't32_ldh_table', 'no_env'),
     ('t32_dp_register', 'thumb_data_processing_register', 'dec_thumb_data_processing_register', 't32_dpr_table', 't32_dpr_env'),
     ('t32_multiply', 'thumb_multiply_multiply_accumulate_and_absolute_difference', 'dec_thumb_multiply_multiply_accumulate_and_absolute_difference', 't32_mul_table', 'no_env'),
@@ -66,6 +67,12 @@ def t32_cases(rng, tier):
         if label == 't32_load_halfword':          # the table covers Rt <> 1111 (the Rt = 1111 slots are preload hints)
             words = [w if (w >> 12) & 15 != 15 else w ^ (1 << 12) for w in words]
         for w in words:
+            if env == 'res':
+                model = f'(match {fn} {w} with Val (Some c) => [0; 1; c] | Val None => [0; 0] | Err EUndefined => [2; 6] | Err _ => [2; 7] end)'
+                spec = f'(enc_leaf_res (lookup {table} (LRet (Val None)) {w}) {w})'
+                out.append({'impl': {'kind': 'decode', 'module': module, 'instr': w}, 'model': model, 'spec': spec,
+                            'label': label, 'nontrivial': True})
+                continue
             model = f'(match {fn} {w} with Some c => [0; 1; c] | None => [0; 0] end)'
             spec = f'(enc_leaf_opt (lookup {table} (LRet None) {w}) {env} {w})'
             out.append({'impl': {'kind': 'decode', 'module': module, 'instr': w}, 'model': model, 'spec': spec,
